@@ -131,13 +131,25 @@ func (x *exec) access(p unsafe.Pointer, write bool, pos string) {
 	if xx == nil {
 		return
 	}
-	x = xx
-	x.mu.Lock()
-	defer x.mu.Unlock()
+	xx.mu.Lock()
+	xx.accessLocked(t, uintptr(p), write, pos)
+	xx.mu.Unlock()
+}
+
+// chanAccess mirrors the Go race detector's treatment of channels: a send is a
+// read of the channel, close is a write of it (runtime/chan.go: racereadpc in
+// chansend, racewritepc in closechan); receives are not accesses.
+func (x *exec) chanAccess(t *thread, obj *object, write bool, pos string) {
+	if obj == nil {
+		return
+	}
+	x.accessLocked(t, uintptr(unsafe.Pointer(obj)), write, "chan "+pos)
+}
+
+func (x *exec) accessLocked(t *thread, a uintptr, write bool, pos string) {
 	if x.shadow == nil {
 		x.shadow = map[uintptr]*shadowCell{}
 	}
-	a := uintptr(p)
 	c := x.shadow[a]
 	if c == nil {
 		c = &shadowCell{}
